@@ -69,6 +69,19 @@ _tok('shape4', [
 ], ['A', 'B', 'C', '_D', 'D'], {'unamb', 'shaping'}, declare=['A', 'B', 'C', '_D'])
 
 
+# the same repeated expression in a keep-all rule and in an ordinary rule (helper rules must not leak the ! of another rule)
+_tok('shape5', [
+    Rule('start', [[N('a'), T('S'), N('b')], [N('c')]]),
+    Rule('!a', [[Plus(L('x'))]]),
+    Rule('b', [[Plus(L('x')), T('Z')], [Star(L('y')), T('S')]]),
+    Rule('!c', [[T('Z'), Star(L('y')), Rep(L('x'), 2, 3)]]),
+], ['X', 'Y', 'S', 'Z'], {'unamb', 'shaping'}, declare=['S', 'Z'])
+_tok('shape6', [
+    Rule('start', [[N('p'), N('q')]]),
+    Rule('p', [[L('x'), Opt(L('y')), Maybe(L('x'), T('S'))]]),
+    Rule('!q', [[L('x'), Opt(L('y')), Maybe(L('x'), T('S'))]]),
+], ['X', 'Y', 'S'], {'unamb', 'shaping'}, declare=['S'])
+
 # ambiguity through inlined / conditionally inlined rules and through intermediate nodes
 _tok('amb_inl', [Rule('start', [[N('a'), N('a')]]), Rule('?a', [[N('_b')], [N('c')]]), Rule('_b', [[A], [A, A]]), Rule('c', [[A]])],
      ['A', 'B'], {'ambiguous', 'amb'})
